@@ -188,6 +188,8 @@ class Ctx:
         if n <= 0:
             raise EngineError('choose(0)')
         if self.mode == 'native':
+            if self.native_cpos >= len(self.native_choices):
+                raise PathAbort('end of the recorded choices')  # the violation was recorded before this point
             k = self.native_choices[self.native_cpos]
             self.native_cpos += 1
             if k[0] != name:
@@ -553,19 +555,36 @@ def const_int(value):
 
 
 def fresh_real(name, lo=None, hi=None, grid=4):
-    """Rational on the grid 1/grid within [lo, hi] (binary64-exact for dyadic grids)."""
+    """Rational on the grid 1/grid within [lo, hi] (binary64-exact for dyadic grids);
+    grid=None: any real in [lo, hi] (pure LRA; native replay rounds to binary64)."""
     c = _ctx
     if c.mode == 'native':
         fr = Fraction(c.native_model[name])
         return float(fr) if fr.denominator != 1 else int(fr)
-    k = z3.Int(name + '#k')
-    c.keep.append(k)
-    c.inputs[name] = z3.ToReal(k) / grid
-    if lo is not None:
-        c.add(k >= int(lo * grid))
-    if hi is not None:
-        c.add(k <= int(hi * grid))
-    return SymReal(z3.ToReal(k) / grid, tag=name)
+    ck = ('real', name, lo, hi, grid)
+    hit = _FRESH_CACHE.get(ck)
+    if hit is None:
+        cons = []
+        if grid is None:
+            v = z3.Real(name)
+            e = v
+            if lo is not None:
+                cons.append(v >= z3.RealVal(Fraction(lo)))
+            if hi is not None:
+                cons.append(v <= z3.RealVal(Fraction(hi)))
+        else:
+            v = z3.Int(name + '#k')
+            e = z3.ToReal(v) / grid
+            if lo is not None:
+                cons.append(v >= int(lo * grid))
+            if hi is not None:
+                cons.append(v <= int(hi * grid))
+        hit = _FRESH_CACHE[ck] = (e, z3.And(*cons) if len(cons) > 1 else (cons[0] if cons else None))
+    e, con = hit
+    c.inputs[name] = e
+    if con is not None:
+        c.add(con)
+    return SymReal(e, tag=name)
 
 
 def fresh_bool(name):
